@@ -906,6 +906,9 @@ def run(chk):
     r4.ob("ChaiScript_Parser::parse: only eval_error can escape (%d functions on the parse path analysed)" % len(sub), not esc, p.where, p["q"], "escaping: %s" % sorted(esc))
     for name, why in ALLOW4.items():
         r4.note("allow-listed digit converter %s -- %s" % (name, why))
+    # the allow-list above rests on this: only digits of the right base are ever appended to the buffers that are converted
+    from .c16 import digit_class_obligations
+    digit_class_obligations(chk, r4, prog)
     r4.note("calls into chaiscript::optimizer are cut here; that Optimizer::optimize cannot throw is R1.5 (= C02 R2.3)")
     ne = getattr(ef, "noexcept_escape", {})
     seen = set()
